@@ -1361,6 +1361,19 @@ async fn run_step(w: &mut World, step: &Value) {
             }
             w.log.emit("peer", "peer_open", m);
         }
+        ("peer", "wait_handle") => {
+            let k = key("peer", &tag);
+            let deadline = tokio::time::Instant::now() + Duration::from_millis(u(step, "ms", 3000));
+            let mut ok = false;
+            while tokio::time::Instant::now() < deadline {
+                if w.streams.lock().await.send.contains_key(&k) {
+                    ok = true;
+                    break;
+                }
+                tokio::time::sleep(Duration::from_millis(5)).await;
+            }
+            w.log.emit("peer", "handle_ready", fields! {"tag" => tag, "ok" => ok});
+        }
         ("peer", "write") => {
             let data = payload(step);
             let k = key("peer", &tag);
